@@ -1,7 +1,8 @@
 (* Model of pkg/dhcp/server.go (handleDHCP and its handlers, cleanupExpiredLeases) together with the
    dhcp.Pool of pkg/dhcp/pool.go it allocates from, as coded (after the two C02 fix commits:
    Pool.Reserve in handleRequest, MarkUnavailable dropping the allocation + handleDecline cleaning
-   the circuit-ID index).
+   the circuit-ID index; and after fix c878197: a renewal from another circuit drops the old
+   circuit-id's index entry).
 
    Configuration modelled: one local pool (PoolManager.ClassifyClient always returns the default
    pool), RADIUS authentication off, no Nexus client / HTTP allocator / peer pool, loader present
@@ -154,11 +155,33 @@ Definition expire_one (s : state4) (mac : N) : state4 :=
   | None => s
   end.
 
+Definition lease4_eqb (a b : lease4) : bool :=
+  (l_mac a =? l_mac b) && (l_ip a =? l_ip b) && (l_exp a =? l_exp b) && (l_cid a =? l_cid b).
+
+(* dropCircuitIDBindings(old) (fix c878197): when the renewed lease records another circuit-id than
+   the lease it replaces, the index entry of the old circuit-id goes, provided it still points at
+   the replaced lease object.  Pointer identity of the code is value equality here: two distinct
+   lease objects with equal fields (same MAC, same instant, same circuit-id) are never both
+   reachable - the second ACK replaced the first in the table and in the index. *)
+Definition drop_old_cid (cx : list (N * lease4)) (ex : option (lease4 * bool)) (cid : N) : list (N * lease4) :=
+  match ex with
+  | Some e =>
+      let old := fst e in
+      if negb (l_cid old =? 0) && negb (l_cid old =? cid)
+      then match alookup (l_cid old) cx with
+           | Some x => if lease4_eqb x old then aremove (l_cid old) cx else cx
+           | None => cx
+           end
+      else cx
+  | None => cx
+  end.
+
 Definition do_ack (c : cfg4) (s : state4) (m : msg4) (ex : option (lease4 * bool)) (ip : N) : state4 :=
   let cid := if m_cid m =? 0 then match ex with Some e => l_cid (fst e) | None => 0 end else m_cid m in
   let l := {| l_mac := m_mac m; l_ip := ip; l_exp := now s + c_lt c; l_cid := cid |} in
+  let cx := drop_old_cid (cidx s) ex cid in
   {| leases := aset (m_mac m) l (leases s);
-     cidx := if cid =? 0 then cidx s else aset cid l (cidx s);
+     cidx := if cid =? 0 then cx else aset cid l cx;
      alloc := alloc s; avail := avail s; unavail := unavail s; now := now s |}.
 
 Definition step4 (c : cfg4) (s : state4) (o : op4) : state4 * reply4 * list N :=
